@@ -34,7 +34,7 @@ Print Assumptions C05_delivered_at_most_once.
 Theorem C05_throw_preserves_accounting : forall u s T, reach step1 (init u) s ->
   outst (sets (sh s) T) = qcount T (queue (sh s)) + tsum (contrib T) (threads s) /\
   (qcount T (queue (sh s)) = 0 -> (forall th f, In th (threads s) -> In f (stk th) -> contrib T f = 0) -> outst (sets (sh s) T) = 0).
-Proof. intros u s T R. split; [apply (outstanding_counts u s R) | apply (quiescent_zero u s T R)]. Qed.
+Proof. exact throw_preserves_accounting. Qed.
 Print Assumptions C05_throw_preserves_accounting.
 
 (* next_wait_rethrows: when the counter reads 0 and no thread is capturing an exception of T outside a counted wrapper (invokeInline on a
